@@ -6,6 +6,7 @@ mod dynres;
 mod engine;
 mod hist;
 mod model;
+mod num;
 mod props;
 mod signal;
 
@@ -18,6 +19,7 @@ static A: alloc::Counting = alloc::Counting;
 fn with_prop(id: &str, f: &mut dyn FnMut(&dyn Runner)) -> bool {
     use props::hist_props::{HistProp, Which};
     match id {
+        "C01" => f(&props::c01::C01),
         "C03" => f(&HistProp(Which::C03)),
         "C04" => f(&HistProp(Which::C04)),
         "C05" => f(&props::c05::C05),
